@@ -178,7 +178,7 @@ def hook_handlers():
     return h
 
 
-def hook_summary(ix, ci, method, consts=None, args=None, partial=False):
+def hook_summary(ix, ci, method, consts=None, args=None, partial=False, soft=False, free=False):
     """interpret one component hook for dynamic class `ci`; returns (KInterp, Kernel)"""
     install_positivity()
     fi = ix.lookup_method(ci, method)
@@ -186,6 +186,9 @@ def hook_summary(ix, ci, method, consts=None, args=None, partial=False):
         raise AnalysisError("%s has no method %s" % (ci.name, method))
     ki = KInterp(ix, dict({"transient": False, "option:transient": False}, **(consts or {})), hook_handlers(), dyn_cls=ci)
     ki.partial = partial
+    ki.soft_calls = soft
+    ki.resilient = soft
+    ki.free_syms = free
     k = ki.run(fi, args)
     return ki, k
 
